@@ -481,6 +481,9 @@ MUTANTS += [
     dict(id="c05-revert-kfilt-pad-clamp", prop="C05", file="ibldsp/voltage.py",
          old="    ntr_pad = min(int(ntr_pad), nx)\n    ntr_tap = ntr_pad if ntr_tap is None else ntr_tap\n    nxp = nx + ntr_pad * 2\n\n    # apply agc and keep the gain in handy\n    if not lagc:\n        xf = gp.copy(x)",
          new="    ntr_pad = int(ntr_pad)\n    ntr_tap = ntr_pad if ntr_tap is None else ntr_tap\n    nxp = nx + ntr_pad * 2\n\n    # apply agc and keep the gain in handy\n    if not lagc:\n        xf = gp.copy(x)"),
+    dict(id="c02-revert-numpy-integer-selector", prop="C02", file="spikeglx.py",
+         old="        if isinstance(nsel, np.integer):\n            # mtscomp only recognises python integers and returns nothing for numpy ones\n            nsel = int(nsel)\n",
+         new=""),
     dict(id="c04-revert-sync-copy-verification", prop="C04", file="neuropixel.py",
          old="                    assert np.array_equal(\n                        expected[:, -1], srs[first:last, -1]\n                    ), \"data in original file and split files do no match\"\n",
          new=""),
